@@ -30,7 +30,7 @@
 // call orders, Listener.Accept, (n, io.EOF) socket answers), large packets, sizes around the
 // threshold, full-duplex use at socket-call granularity.
 //
-// The budget that may stop a walk is counted in process CPU time (see pastDeadline).
+// The budget that may stop a walk is counted in user CPU time of the process (see pastDeadline).
 package main
 
 import (
@@ -246,7 +246,7 @@ func (c *config) newStreamIV(iv []byte) *CFB8.CFB8 {
 // stream judge
 
 var (
-	cpuBudget     time.Duration // work budget in process CPU time (see pastDeadline)
+	cpuBudget     time.Duration // work budget in user CPU time of this process (see pastDeadline)
 	skippedShards int64
 	ivPosReadable int32                = 1
 	covered       [2][34][17][7]uint32 // (direction, ivPos before the call, length, aliasing) seen
@@ -257,17 +257,17 @@ var (
 	roundTrips    int64
 )
 
-// pastDeadline: the budget that stops a walk is counted in CPU time consumed by this process
-// (75 s x workers for quick, 14 min x workers for thorough, i.e. the wall-clock limits on an
-// otherwise idle machine), not in wall time: on a machine shared with other jobs the same work
-// is done and the same cases are covered, only later.
+// pastDeadline: the budget that stops a walk is counted in user CPU time consumed by this
+// process (75 s x 16 for quick, 14 min x 16 for thorough, i.e. the wall-clock limits of the
+// reference 16-core machine when it is otherwise idle), not in wall time and not per worker: on a
+// machine shared with other jobs, or with fewer workers, the same work is done and the same cases
+// are covered, only later.
 func pastDeadline() bool {
 	var ru syscall.Rusage
 	if err := syscall.Getrusage(syscall.RUSAGE_SELF, &ru); err != nil {
 		return false
 	}
-	used := time.Duration(ru.Utime.Nano() + ru.Stime.Nano())
-	return used > cpuBudget
+	return time.Duration(ru.Utime.Nano()) > cpuBudget
 }
 
 func readIvPos(cf *CFB8.CFB8) int {
@@ -1270,9 +1270,9 @@ func main() {
 		frags = append(append([][]int{}, fragsQuick...), fragsMore...)
 	}
 	t0 := time.Now()
-	cpuBudget = 75 * time.Second * time.Duration(engine.Workers())
+	cpuBudget = 75 * time.Second * 16
 	if rep.Thorough() {
-		cpuBudget = 14 * time.Minute * time.Duration(engine.Workers())
+		cpuBudget = 14 * time.Minute * 16
 	}
 	// (i) all sequences from the initial state
 	exploreDepth(cfgs, D, nAliasCore, []int{-1}, false)
